@@ -24,6 +24,9 @@ pub(super) struct MulAddFusion<F> {
     /// whose `out` is one of these is a backwards op (it solves for `b`), exactly as if `out`
     /// had been defined by an earlier op.
     predefined: hashbrown::HashSet<WitnessId>,
+    /// How many ops (plus one for a predefined witness) write each witness. A slot with more
+    /// than one writer is shared through `connect`: every writer is an asserted relation.
+    writers: HashMap<WitnessId, usize>,
 }
 
 impl<F: Field> MulAddFusion<F> {
@@ -40,6 +43,7 @@ impl<F: Field> MulAddFusion<F> {
             defs: HashMap::with_capacity(ops.len()),
             backwards_computed: HashMap::new(),
             predefined: predefined.iter().copied().collect(),
+            writers: predefined.iter().map(|id| (*id, 1)).collect(),
         };
         fusion.scan_use_counts(ops);
         fusion.scan_defs(ops);
@@ -109,6 +113,23 @@ impl<F: Field> MulAddFusion<F> {
     }
 
     fn scan_defs(&mut self, ops: &[Op<F>]) {
+        for op in ops {
+            match op {
+                Op::Const { out, .. } | Op::Public { out, .. } | Op::Alu { out, .. } => {
+                    *self.writers.entry(*out).or_default() += 1;
+                }
+                Op::NonPrimitiveOpWithExecutor { outputs, .. } => {
+                    for &id in outputs.iter().flatten() {
+                        *self.writers.entry(id).or_default() += 1;
+                    }
+                }
+                Op::Hint { outputs, .. } => {
+                    for &id in outputs {
+                        *self.writers.entry(id).or_default() += 1;
+                    }
+                }
+            }
+        }
         for (idx, op) in ops.iter().enumerate() {
             match op {
                 Op::Const { out, val } => {
@@ -211,6 +232,13 @@ impl<F: Field> MulAddFusion<F> {
 
         // Single-use, non-const mul
         if self.uses(&mul_result) != 1 || self.is_const(&mul_result) {
+            return None;
+        }
+
+        // The product slot must be written by this Mul alone. If `connect` shares it with an
+        // input or another op's output, `a * b == slot` is an asserted relation that a fused
+        // MulAdd (which does not constrain its intermediate product) would drop.
+        if self.writers.get(&mul_result).copied().unwrap_or(0) != 1 {
             return None;
         }
 
